@@ -72,7 +72,7 @@ pub fn specs() -> Vec<Spec> {
 			},
 			expect: |_, i, t, n, m, aux| {
 				let (_, s) = hma_lens(n);
-				Exp::Val(win::wma(&refm::window(aux, i, t, s)), allow(n, t, m, 4.0))
+				Exp::Val(win::wma(&refm::window(aux, i, t, s)), allow(n, t, m, 6.0))
 			},
 		},
 		Spec { name: "LinReg", min_n: 2, dom: Domain::Any, make: mk!(LinReg), prep: no_prep, expect: |xs, i, t, n, m, _| Exp::Val(win::linreg(&refm::window(xs, i, t, n)), allow(n, t, m, 4.0)) },
